@@ -307,6 +307,8 @@ class FactBase:
                 raw = json.load(fh)
             self.crates[key] = raw
             self._aliases(name, ctype, raw)
+            for rb in raw['bodies']:
+                rb['ctype'] = ctype
             bodies = [Body(b, name, self) for b in raw['bodies']]
             self._bodies[key] = bodies
             by_nid = defaultdict(list)
